@@ -30,7 +30,7 @@ import vlib
 warnings.simplefilter("ignore")
 
 ROLES = ["data0", "data1", "points", "probs", "sample", "limits", "deltas", "semantics", "fit_desc",
-         "edge_points", "edge_probs", "edge_vec", "dc", "levels", "par_rename", "steps"]
+         "edge_points", "edge_probs", "edge_vec", "dc", "levels", "par_rename", "steps", "boundary"]
 NROLES = len(ROLES)
 
 
@@ -436,6 +436,7 @@ def family_and_utility_sweep(ctx):
 # python entry -> (Coq entry class, needs)   The Coq class fixes the footprint.
 ENTRY_CLASS = {
     "marginal_cdf_dep": "MarginalCdf", "dist0_pdf": "DistPdf", "dist0_cdf": "DistCdf", "dist0_icdf": "DistIcdf",
+    "cdf_boundary": "Cdf", "pdf_boundary": "Pdf",
     "pdf": "Pdf", "cdf": "Cdf", "marginal_pdf": "MarginalPdf", "marginal_cdf0": "MarginalCdf", "marginal_icdf0": "MarginalPdf",
     "marginal_icdf_seeded": "MarginalIcdfSeeded", "iform_seeded": "IFORMSeeded", "conditional_cdf_mc": "ConditionalCdf",
     "conditional_icdf_mc": "ConditionalIcdf", "conditional_sample": "ConditionalSample", "dep_call": "DepCall",
@@ -448,11 +449,11 @@ ENTRY_CLASS = {
 }
 EDGE_OK = {"dep_call", "pdf", "marginal_pdf", "marginal_cdf0", "marginal_icdf0", "conditional_cdf", "conditional_icdf", "dist_pdf", "dist_cdf",
            "dist_icdf", "dist0_pdf", "dist0_cdf", "dist0_icdf", "empirical_cdf_sample"}
-GHM2 = ["marginal_icdf_seeded", "conditional_sample", "dep_call", "dist0_pdf", "dist0_cdf", "dist0_icdf", "draw_sample_seeded", "dist_sample_seeded", "pdf", "marginal_pdf", "marginal_cdf0", "marginal_icdf0", "marginal_icdf_mc", "conditional_cdf", "conditional_icdf",
+GHM2 = ["cdf_boundary", "pdf_boundary", "marginal_icdf_seeded", "conditional_sample", "dep_call", "dist0_pdf", "dist0_cdf", "dist0_icdf", "draw_sample_seeded", "dist_sample_seeded", "pdf", "marginal_pdf", "marginal_cdf0", "marginal_icdf0", "marginal_icdf_mc", "conditional_cdf", "conditional_icdf",
         "draw_sample_seeded", "draw_sample", "dist_pdf", "dist_cdf", "dist_icdf", "dist_sample_seeded", "iform", "isorm", "hdc",
         "hdc_default", "direct_sampling", "and", "or", "plot_marginal_quantiles", "plot_dependence_functions", "plot_histograms",
         "plot_isodensity"]
-GHM3 = ["marginal_icdf_seeded", "conditional_sample", "dep_call", "dist0_pdf", "dist0_cdf", "dist0_icdf", "draw_sample_seeded", "pdf", "marginal_cdf0", "draw_sample_seeded", "draw_sample", "dist_pdf", "dist_cdf", "dist_icdf", "dist_sample_seeded",
+GHM3 = ["pdf_boundary", "marginal_icdf_seeded", "conditional_sample", "dep_call", "dist0_pdf", "dist0_cdf", "dist0_icdf", "draw_sample_seeded", "pdf", "marginal_cdf0", "draw_sample_seeded", "draw_sample", "dist_pdf", "dist_cdf", "dist_icdf", "dist_sample_seeded",
         "iform", "isorm", "hdc", "plot_dependence_functions"]
 TRANS = ["draw_sample_seeded", "marginal_icdf_seeded", "conditional_sample", "dep_call", "pdf", "draw_sample", "empirical_cdf_sample", "direct_sampling", "and", "or"]
 CONTOURS = {"iform", "iform_seeded", "isorm", "hdc", "hdc_default", "direct_sampling", "and", "or"}
@@ -534,7 +535,10 @@ class World:
                             # caller-owned arguments of the plotting / design-condition functions
                             ("dc", np.array(d0[10:14, :2], dtype=float)), ("levels", [1e-3, 1e-2, 1e-1]),
                             ("par_rename", {"mu": "$\\mu$", "alpha": "$\\alpha$"}),
-                            ("steps", [float(np.quantile(d0[:, 0], q)) for q in (0.3, 0.5, 0.7)])):
+                            ("steps", [float(np.quantile(d0[:, 0], q)) for q in (0.3, 0.5, 0.7)]),
+                            # points with a coordinate exactly ON the lower boundary of the support / integration range
+                            ("boundary", np.vstack([np.where(np.arange(r["n_dim"]) == i, 0.0, d0[8]) for i in range(r["n_dim"])]
+                                                   + [np.zeros(r["n_dim"])]).astype(float))):
                 assert ROLES[len(r["arr"])] == role
                 r["arr"][role] = len(self.arrays)
                 self.arrays.append(a)
@@ -627,6 +631,15 @@ def result_value(obj):
     return ("other", type(obj).__name__)
 
 
+def scribble(tag):
+    """unrelated small allocations, filled and released again: a result array that is allocated with np.empty and not
+    completely written afterwards shows whatever the previous user of the block left there -- different at every step"""
+    keep = []
+    for n in list(range(1, 13)) * 6:
+        keep.append(np.full(n, 1000.0 + 17.0 * tag + n))
+    del keep
+
+
 def execute(world, op, results):
     """runs one operation on the real code; returns the object it produced"""
     v = _v()
@@ -650,7 +663,7 @@ def execute(world, op, results):
                                     design_conditions=world.arrays[r["arr"]["dc"]] if op.get("dc") else True,
                                     semantics=world.arrays[r["arr"]["semantics"]], swap_axis=op.get("swap", False))
             return out
-        path = os.path.join(world.tmp, "contour_%d" % op["id"])
+        path = os.path.join(world.tmp, "contour_of_step_%d" % op["c"])      # ONE path per contour: a second save overwrites
         v.save_contour_coordinates(c, path, world.arrays[r["arr"]["semantics"]])
         return open(path + ".txt", "rb").read()
     r = world.recs[op["k"]]
@@ -666,6 +679,10 @@ def execute(world, op, results):
         return m.pdf(X)
     if e == "cdf":
         return m.cdf(X[:1])
+    if e == "cdf_boundary":             # every integration range is empty in some dimension: cheap, and must be repeatable
+        return m.cdf(world.arrays[A["boundary"]])
+    if e == "pdf_boundary":
+        return m.pdf(world.arrays[A["boundary"]])
     if e == "marginal_pdf":
         return m.marginal_pdf(X[:, 1] if op.get("edge") else X[:2, 1], 1)
     if e == "marginal_cdf_dep":         # dependent dimension: nquad per point, so a short vector
@@ -754,7 +771,7 @@ def gen_history(rng, names, quick, maxlen=6):
         return arr_no(k, role)
     while len(ops) < L:
         u = rng.random()
-        dets = [o for o in ops if o["op"] == "eval" and o["det"]]
+        dets = [o for o in ops if o["op"] in ("eval", "post") and o["det"]]
         if len(ops) == L - 1 and dets and rng.random() < 0.7:
             u = 0.0                                 # close the history with a repetition
         conts = [o for o in ops if o["op"] == "eval" and o["entry"] in CONTOURS and o["dim2"]]
@@ -832,6 +849,8 @@ def op_args(world, op):
         use = {{"points": "edge_points", "probs": "edge_probs"}.get(u, u) for u in use}
     if e == "marginal_cdf_dep":
         use = {"edge_vec"}
+    if e in ("cdf_boundary", "pdf_boundary"):
+        use = {"boundary"}
     if e.startswith("plot"):
         use = use | {"semantics"}
     return sorted(A[u] for u in use)
@@ -889,6 +908,7 @@ def run_history(names, ops, seed, keep_results=False):
             old = signal.signal(signal.SIGALRM, _too_long)
             signal.setitimer(signal.ITIMER_REAL, 12.0 if op.get("entry") == "marginal_cdf_dep" else 40.0)
             try:
+                scribble(pos)
                 res = execute(world, op, results)
             except Exception as e:  # noqa  (numerical failures of the engines are not the property's business)
                 res, err = None, "%s: %s" % (type(e).__name__, str(e)[:100])
@@ -903,13 +923,20 @@ def run_history(names, ops, seed, keep_results=False):
             cells = {}
             for p in changed:
                 cells.setdefault(world.cell_of(p), []).append(p)
+            extra = None
+            if op["op"] == "post" and op["post"] == "SaveContour" and isinstance(res, bytes):
+                # read-back: header + one line per contour point, whatever the file held before
+                rows = len(np.asarray(results[op["c"]].coordinates))
+                lines = res.decode("utf-8", "replace").splitlines()
+                if len(lines) != rows + 1:
+                    extra = "the file read back after save_contour_coordinates has %d lines, the contour %d points (+1 header line)" % (len(lines), rows)
             if op["op"] == "eval" and op["entry"] in CONTOURS and res is not None:
                 results[op["id"]] = res
                 world.live[pos] = res
             if res is not None:
                 values[op["id"]] = result_value(res)
             plt.close("all")
-            steps.append({"skipped": False, "changed": changed, "cells": cells, "err": err,
+            steps.append({"skipped": False, "changed": changed, "cells": cells, "err": err, "extra": extra,
                           "coq": coq_op(world, op, pos_of)})
         shapes = [shape_of(r) for r in world.recs]
         return {"steps": steps, "values": values, "shapes": shapes, "pos_of": pos_of}
@@ -924,6 +951,8 @@ def classify(names, ops, obs, wsets):
         if st["skipped"]:
             continue
         allowed = set(wsets[pos]) if wsets is not None else None
+        if st.get("extra"):
+            viol.append(({"clause": "export", "site": "SaveContour"}, "post(SaveContour) on model %d (%s): %s" % (op["k"], names[op["k"]], st["extra"])))
         for cell, paths in st["cells"].items():
             where = "%s(%s) on model %d (%s)" % (op["op"], op.get("entry") or op.get("post") or "", op["k"], names[op["k"]])
             if isinstance(cell, tuple) and cell[0] == "Arr":
@@ -1066,6 +1095,12 @@ def run(ctx):
         ([gG, "custom3d_chain"], [dict(ev, entry="cdf"), dict(ev, entry="marginal_icdf_seeded"), dict(ev, entry="conditional_sample"),
                                   dict(fit1), dict(ev, entry="marginal_icdf_seeded"), dict(ev, entry="conditional_sample")]),
     ]
+    cover += [
+        # joint cdf / pdf at points ON the lower boundary (2-D and 3-D), repeated after unrelated work
+        # (3-D: the density only -- nquad over a degenerate 3-D box can take a minute)
+        ([gG, "custom3d"], [dict(ev, entry="cdf_boundary"), dict(ev, entry="pdf_boundary", k=1, dim2=False), dict(ev, entry="draw_sample_seeded"),
+                            dict(ev, entry="cdf_boundary"), dict(ev, entry="pdf_boundary"), dict(ev, entry="cdf_boundary")]),
+    ]
     po = {"op": "post", "k": 0, "det": True, "swap": False}
     cover += [
         # contour pipelines with caller-owned arguments: design conditions (list of abscissae), plot (sample, semantics,
@@ -1073,9 +1108,9 @@ def run(ctx):
         ([gG, gT], [dict(ev, entry="direct_sampling"), dict(po, c=0, post="DesignConditions", steps="list"), dict(po, c=0, post="PlotContour", dc=True),
                     dict(po, c=0, post="SaveContour"), dict(ev, entry="plot_histograms"), dict(po, c=0, post="DesignConditions", steps="list")]),
         ([gG, gG], [dict(ev, entry="and", det=False), dict(ev, entry="or", det=False), dict(po, c=1, post="PlotContour", swap=True),
-                    dict(ev, entry="marginal_icdf0"), dict(ev, entry="hdc"), dict(po, c=4, post="SaveContour")]),
+                    dict(ev, entry="hdc"), dict(po, c=3, post="SaveContour"), dict(po, c=3, post="SaveContour")]),
         ([gT, gG], [dict(ev, entry="direct_sampling"), dict(po, c=0, post="DesignConditions", steps=5), dict(po, c=0, post="PlotContour"),
-                    dict(po, c=0, post="SaveContour"), dict(ev, entry="and", det=False), dict(ev, entry="or", det=False)]),
+                    dict(po, c=0, post="SaveContour"), dict(ev, entry="and", det=False), dict(po, c=0, post="SaveContour")]),
     ]
     for models, ops in cover:
         for i, o in enumerate(ops):
